@@ -313,17 +313,26 @@ def run_mode_A(ctx, case, stale=False):
                 continue
             job = D.jobs[t][h]
             ctx.monitor("lifecycle_rebinds_document")
-            if op[0] == "remove_init":
-                job.remove()
-                job.init()
-                D.model[t] = {}
-            else:
-                if not os.path.isdir(job.path):
-                    continue
-                new_sp = dict(D.sps[t])
-                new_sp["r"] = new_sp.get("r", 0) + 1
-                job.sp["r"] = new_sp["r"]
-                D.sps[t] = new_sp
+            try:
+                if op[0] == "remove_init":
+                    job.remove()
+                    job.init()
+                    D.model[t] = {}
+                else:
+                    if not os.path.isdir(job.path):
+                        continue
+                    new_sp = dict(D.sps[t])
+                    new_sp["r"] = new_sp.get("r", 0) + 1
+                    job.sp["r"] = new_sp["r"]
+                    D.sps[t] = new_sp
+            except (KeyError, OSError):
+                if not stale:
+                    raise
+                # Mode S keeps handles that another handle's remove / re-key left behind; a lifecycle
+                # operation through such a handle may raise (C03's subject, open finding
+                # stale-handle-rekey-keyerror-from-lock-registry).  Not a document operation: the history ends.
+                ctx.count("stale_handle_lifecycle_raise_accepted")
+                return
             # other independent handles are bound to the old directory / hold the old content
             linked = D.linked.setdefault(t, True)  # jobs[t][2] is a copy.copy of the current jobs[t][0] object
             for hh in range(D.nh):
